@@ -210,8 +210,10 @@ def _open_read(prev):
                 raise Unsupported(f"open() with mode {mode!r} has no model")
             return prev(eng, args, kwargs)
         name = args[0]
+        if isinstance(name, str):  # a literal path names some file: an abstract source determined by the text of the path
+            name = Opaque(z3.Int("path:" + name), {"__isinstance__": (str,)})
         if not isinstance(name, Opaque):
-            raise Unsupported("open() for reading is modelled for an abstract path only")
+            raise Unsupported("open() for reading is modelled for an abstract or literal path only")
         eng.assumptions.add(IO_OPEN)
         if eng.branch(eng.sbool(UNREADABLE(name.z))):
             raise ProgExc(OSError, "cannot open")
